@@ -145,7 +145,7 @@ func runListX(dir, focus string, env *execEnv, caseStr string) (*Sx, []Violation
 func init() {
 	families["exposure"] = family{
 		gen: func(r *Rng, id int, tier string) *Sx {
-			cfg := &genCfg{anp: false, banp: false, pods: true, twinPct: 20, collidePct: 30, namedOnIPPct: 6, maxNP: 4, maxWl: 4}
+			cfg := &genCfg{anp: false, banp: false, pods: true, twinPct: 20, collidePct: 30, repName: true, namedOnIPPct: 6, maxNP: 4, maxWl: 4}
 			w := genWorld(r, cfg)
 			c := Ls(At("wcase"), Ai(int64(id)), w.Sx(), Ls(At("listx"), At("-")))
 			if r.P(15) {
